@@ -317,12 +317,17 @@ theorem processLabels_err {tes : List TEntry} {pending : List (Nat × String)} {
 def buildKinds : List String :=
   ["ParserSyntaxException", "ParserOddImmediateException", "ParserLabelException"]
 
+/-- `labelDisp` fails for an unbound label (`ParserLabelException`) or an odd displacement
+    (`ParserOddImmediateException`), in both cases with the entry's own line number and text. -/
 theorem labelDisp_err {ls : Labels} {l : String} {off addr : Int} {k : Nat} {line : String} {e : AsmErr}
-    (h : labelDisp ls l off addr k line = .error e) : e = .parser "ParserLabelException" k line := by
+    (h : labelDisp ls l off addr k line = .error e) :
+    e = .parser "ParserLabelException" k line ∨ e = .parser "ParserOddImmediateException" k line := by
   unfold labelDisp at h
   split at h
-  · cases h
-  · cases h; rfl
+  · split at h
+    · cases h; exact Or.inr rfl
+    · cases h
+  · cases h; exact Or.inl rfl
 
 theorem instantiate_err {ls : Labels} {addr : Int} {k : Nat} {line : String} {pi : PInstr} {e : AsmErr}
     (h : instantiate ls addr k line pi = .error e) :
@@ -335,7 +340,8 @@ theorem instantiate_err {ls : Labels} {addr : Int} {k : Nat} {line : String} {pi
     intro e h'; cases h'; exact ⟨_, by simp [buildKinds], rfl⟩
   have lab : ∀ {l off e}, labelDisp ls l off addr k line = .error e →
       ∃ kind ∈ buildKinds, e = .parser kind k line := by
-    intro l off e h'; rw [labelDisp_err h']; exact ⟨_, by simp [buildKinds], rfl⟩
+    intro l off e h'
+    rcases labelDisp_err h' with rfl | rfl <;> exact ⟨_, by simp [buildKinds], rfl⟩
   unfold instantiate at h
   simp only at h
   repeat' split at h
